@@ -206,6 +206,11 @@ class Interp:
                     except _Malformed as m:
                         self.malformed = str(m)
                         break
+                if self.malformed is None and self._cyclic():
+                    # only possible through a holder that enters the id table before it is complete
+                    # (FlexibleTimeTreeModel referring to itself from its heights): legal for the id
+                    # language, but no class of the zoo can make sense of it (a tree used as a vector)
+                    self.malformed = "circular reference"
                 for id_, path in self.pending:
                     if id_ in self.defined:
                         self._lca_guard(self.defined[id_], path)
@@ -418,7 +423,18 @@ class Interp:
 
     def _UnRootedTreeModel(self, v, path, node):
         self._slot(v, "taxa", path, node)
-        self._slot(v, "branch_lengths", path, node)
+        c = self._slot(v, "branch_lengths", path, node)
+        if v.get("keep_branch_lengths"):
+            # the lengths written in the newick string are assigned to the branch-length parameter (the
+            # registered, possibly shared object) while the tree is loaded; the two branches at the root
+            # are merged and the last node, a child of the root, is dropped (DESIGN A.1)
+            if c is not None:
+                if c["cls"] != "Parameter" or not c.get("updatable"):
+                    raise _Malformed("keep_branch_lengths on a derived parameter")
+                w = _newick_lengths(v.get("newick", ""))
+                if w is None:
+                    raise _Malformed("newick outside the caterpillar form")
+                c["value"] = w
 
     def _TimeTreeModel(self, v, path, node):
         self._slot(v, "taxa", path, node)
@@ -444,6 +460,38 @@ class Interp:
             raise _Malformed("logger outside the subset")
         self._slot(v, "parameters", path, node, many=True)
         node["file_name"] = v.get("file_name")
+        try:  # main runs it at once: it logs the values of this moment
+            node["content"] = logger_file(node)
+        except Exception:  # noqa  (a fault below it)
+            node["content"] = None
+
+    def _cyclic(self):
+        """does the holder graph contain a cycle? (iterative; value() would never terminate on one)"""
+        state = {}
+        for root in self.nodes:
+            if id(root) in state:
+                continue
+            stack = [(root, iter(self._children(root)))]
+            state[id(root)] = 1
+            while stack:
+                node, it = stack[-1]
+                nxt = next(it, None)
+                if nxt is None:
+                    state[id(node)] = 2
+                    stack.pop()
+                elif state.get(id(nxt)) == 1:
+                    return True
+                elif id(nxt) not in state:
+                    state[id(nxt)] = 1
+                    stack.append((nxt, iter(self._children(nxt))))
+        return False
+
+    @staticmethod
+    def _children(node):
+        out = []
+        for _, c in node["uses"]:
+            out += [x for x in (c if isinstance(c, list) else [c]) if x is not None]
+        return out
 
     # ---- derived facts
     def holders(self):
@@ -511,6 +559,26 @@ def _logpdf(d, x, p):
         a = p["concentration"]
         return np.sum((a - 1) * np.log(x)) + gammaln(np.sum(a)) - np.sum(gammaln(a))
     raise ValueError(d)
+
+
+def _newick_lengths(newick):
+    """branch lengths, by node index, of a caterpillar (((t0:a,t1:b):c,t2:d):e,...); as assigned by
+    keep_branch_lengths: root branches merged, last node dropped"""
+    import re
+
+    w = [float(x) for x in re.findall(r":([0-9.eE+-]+)", newick)]
+    if len(w) < 4 or len(w) % 2:
+        return None
+    n = (len(w) + 2) // 2
+    order = [0, 1]
+    for k in range(2, n):
+        order += [n + k - 2, k]
+    v = [0.0] * (2 * n - 2)
+    for pos, idx in enumerate(order):
+        v[idx] = w[pos]
+    a, b = n - 1, 2 * n - 3
+    v[a] = v[b] = v[a] + v[b]
+    return np.asarray(v[:-1], dtype=float)
 
 
 def _tree_lengths(node):
